@@ -7,7 +7,7 @@ from hypothesis import strategies as st
 
 from vf.core import CaseResult, Ctx, Violation, hyp_run
 from vf.gen.wfspec import atoms_of, wfspecs
-from vf.sim.drive import SCase, outcome_maps, run_async
+from vf.sim.drive import SCase, job_outputs, outcome_maps, run_async
 from vf.sim.model import Model, atom_target, expand_out
 
 PROP_ID = 'C28'
@@ -32,6 +32,17 @@ RULE = (
     '(members may be waiting, held, queued, runahead-limited, preparing / '
     'submitted / running, finished and gone from the pool, or not spawned '
     'yet) and flow option default / new / 1 / 2 / none; then a fair drain.  '
+    'One case in four (where the drawn graph has a suitable edge; about 9% '
+    'of all cases) is of the family "retained start member": an edge '
+    'P.p:out -> C.q of the drawn graph is picked, the first job of P.p is '
+    'scripted to complete `out` but to end final with P incomplete (failed '
+    'though success is required - made required if no line uses P:fail - '
+    'or succeeded / failed without a required custom output), a warm-up of '
+    '6-21 fair rounds lets it get there, then {P.p, C.q (+ a neighbour)} is '
+    'triggered with a drawn flow option: the group-start member sits in the '
+    'pool in a final state carrying the very output its in-group child '
+    'waits for (classes family:retained-start, role:retained-final-start, '
+    'retained-final-start-with-child-on-its-completed-output).  '
     'In-group prerequisites come from the harness AST.  Oracle per trigger '
     'and member, over `launch` trace events (with flows) after the command: '
     '(A) no more launches that only the triggered flow can account for '
@@ -79,6 +90,12 @@ ASSUMPTIONS = [
     'triggers (and/or with parentheses as rendered by the harness); an '
     'expression satisfied by its off-group atoms alone lets the member run '
     'at once.',
+    'An output that a group-start member had completed before the command '
+    'counts for its in-group children only if the member has a live job '
+    '(it is left to finish, the output stands); a member that is re-run by '
+    'the trigger - waiting, or retained in a final state - must produce the '
+    'output again ("other members run only after their in-group '
+    'prerequisites are satisfied", the re-run being the triggered one).',
     'Liveness ("then runs") is decided at quiescence / shutdown of the fair '
     'drain only; iteration cap => inconclusive.  No --wait, no stop '
     'commands, no retries, no future/absolute triggers, no xtriggers in this '
@@ -202,12 +219,29 @@ def cases(draw):
     outcomes = draw(outcome_maps(spec))
     model = Model(spec)
     insts = model.instances()
-    sched = draw(_steps(PRE_OPS, 26))
-    if draw(st.integers(0, 9)) == 0:
-        sched.insert(draw(st.integers(0, len(sched))),
-                     ['hold-point', draw(st.integers(0, 3))])
+    family = 'random-history'
+    retained = None
+    if insts and draw(st.integers(0, 3)) == 0:
+        retained = draw(retained_start(spec, model, insts, outcomes))
+    if retained is not None:
+        # family "retained start member": a parent scripted to end final
+        # but incomplete (so it stays in the pool with its outputs), a
+        # warm-up of fair rounds that lets it get there, then a trigger of
+        # the parent, a child on one of those outputs (and maybe more)
+        family = 'retained-start'
+        group, warm = retained
+        sched = [['round', 2]] * warm + draw(_steps(MID_OPS, 3))
+        if draw(st.integers(0, 2)) == 0:
+            sched += [['round', draw(st.integers(0, 2))]]
+    else:
+        sched = draw(_steps(PRE_OPS, 26))
+        if draw(st.integers(0, 9)) == 0:
+            sched.insert(draw(st.integers(0, len(sched))),
+                         ['hold-point', draw(st.integers(0, 3))])
     if insts:
-        sched.append(['gtrigger', draw(groups(model, insts)),
+        sched.append(['gtrigger',
+                      group if retained is not None
+                      else draw(groups(model, insts)),
                       draw(st.sampled_from(FLOWS))])
         if draw(st.integers(0, 2)) == 0:
             sched += draw(_steps(MID_OPS, 10))
@@ -216,7 +250,66 @@ def cases(draw):
         sched += draw(_steps(MID_OPS, 6))
         if draw(st.booleans()):
             sched.append(['resume', 0])
-    return {'spec': spec, 'outcomes': outcomes, 'schedule': sched}
+    return {'spec': spec, 'outcomes': outcomes, 'schedule': sched,
+            'family': family}
+
+
+@st.composite
+def retained_start(draw, spec, model: Model, insts, outcomes):
+    """Pick a graph edge (P.p:out -> C.q) of the drawn workflow and script
+    the first job of P.p so that it completes `out` but ends in a final
+    state with P incomplete (failed although success is required, or
+    succeeded / failed without a required custom output): the proxy then
+    stays in the pool with its completed outputs.  Mutates `spec['opt']`
+    (success of P made required, where no graph line asks for P:fail) and
+    `outcomes`.  Returns (group as instance indices, warm-up length) or None
+    when the workflow has no such edge."""
+    idx = {inst: i for i, inst in enumerate(insts)}
+    fails_used = {a['t'] for sec in spec['sections'] for ln in sec['lines']
+                  for a in atoms_of(ln['lhs'])
+                  if a['out'] in ('failed', 'finished')}
+    cands = []
+    for (c, q) in insts:
+        if q < model.start:
+            continue
+        for (par, p, out) in model.real_atoms(c, q):
+            if (par, p) != (c, q) and (par, p) in idx:
+                cands.append((par, p, out, c, q))
+    if not cands:
+        return None
+    par, p, out, c, q = draw(st.sampled_from(sorted(set(cands))))
+    o = spec['opt'][par]
+    if o.get('fail_required'):
+        return None
+    customs = list(spec.get('custom', {}).get(par, {}))
+    options = [{'final': 'failed'}]
+    for nm in customs:
+        options.append({'final': None, 'skip': [nm]})
+        options.append({'final': 'failed', 'skip': [nm]})
+
+    def usable(oc, mdl):
+        outs = job_outputs(spec, par, oc)
+        return out in outs and not mdl.complete(par, outs)
+
+    good = [oc for oc in options if usable(oc, model)]
+    if not good and o.get('succ') and par not in fails_used:
+        # (optional success, no line uses P:fail: declare it required)
+        o['succ'] = False
+        mdl2 = Model(spec)
+        good = [oc for oc in options if usable(oc, mdl2)]
+        if not good:
+            o['succ'] = True
+    if not good:
+        return None
+    first = dict(draw(st.sampled_from(good)))
+    again = draw(st.sampled_from([{'final': None}, {'final': None}, first]))
+    outcomes[f'{p}/{par}'] = [first, dict(again)]
+    group = {idx[(par, p)], idx[(c, q)]}
+    if draw(st.integers(0, 2)) == 0:
+        nb = _neighbours(model, insts, group)
+        if nb:
+            group.add(draw(st.sampled_from(nb)))
+    return sorted(group), draw(st.integers(2, 7))
 
 
 # ---------------------------------------------------------------------------
@@ -415,7 +508,8 @@ async def _check(case, ctx: Ctx) -> CaseResult:
                     break
         viol = sc.crash_violations(PROP_ID)
         crashed = bool(viol)
-        classes: Set[str] = set()
+        classes: Set[str] = {'family:' + case.get('family',
+                                                  'random-history')}
         nontrivial = _oracle(sc, spec, final_pool, paused_end, crashed,
                              viol, classes)
         uniq = {}
@@ -570,10 +664,19 @@ def _oracle(sc: SCase, spec, final_pool, paused_end, crashed, viol,
             """custom output that a retained (not removed) group-start
             member still carried from an earlier job at the command"""
             b = _tg.before.get(uid)
-            return (_tg.start[uid] and b is not None
-                    and b['status'] not in LIVE and out in b['outputs']
+            if not (_tg.start[uid] and b is not None
+                    and out in b['outputs']
                     and out in spec.get('custom', {}).get(
-                        uid.split('/', 1)[1], {}))
+                        uid.split('/', 1)[1], {})):
+                return False
+            if b['status'] not in LIVE:
+                return True
+            # ... or that a live member re-queued earlier (same retained
+            # proxy, e.g. by a first trigger) still carries from a job older
+            # than the one it has now
+            had = [ev['sn'] for (i, ev) in outs.get(uid, ())
+                   if i < _tg.idx and ev['out'] == out]
+            return bool(had) and had[-1] < b['submit_num']
 
         def expr_true(m, upto, _gset=gset, fresh_only=False):
             t, p = inst_of(m)
@@ -668,6 +771,13 @@ def _oracle(sc: SCase, spec, final_pool, paused_end, crashed, viol,
                 if b['runahead']:
                     classes.add('member:runahead')
             classes.add('role:start' if start else 'role:in-group-child')
+            if start and b is not None and b['status'] in FINAL:
+                # retained in the pool in a final state (incomplete)
+                classes.add('role:retained-final-start')
+                if any(u == m and set(expand_out(o_)) & set(b['outputs'])
+                       for x in tg.group for (u, o_) in tg.in_edges[x]):
+                    classes.add('retained-final-start-with-child-on-its-'
+                                'completed-output')
             # an active member none of whose flows is the triggered one
             # (default flow = flows of the active members: only a no-flow
             # proxy can be outside it)
